@@ -16,13 +16,10 @@ THEOREMS = ["Names.resolve_direct_import", "Names.resolve_module_alias", "Names.
             "Names.relative_level_c04", "Names.expand_total",
             # the code that BUILDS the alias maps (PdModel/Imports.lean) against CPython's import machinery (PdModel/PyImp.lean)
             "Imports.resolve_sound_partial", "Imports.resolve_from_definer", "Imports.resolve_via_module_alias",
-            "Imports.resolve_sound_unbound_counterexample", "Imports.resolve_order_independent",
-            # the lemmas they rest on
-            "Imports.WF.facts", "Imports.jpy_fun", "Imports.jpd_jpy", "Imports.canon_site", "Imports.site_unique",
-            "Imports.visitStmt_ok", "Imports.visitStmts_ok", "Imports.processModule_ok", "Imports.run_ok",
-            "Imports.execStmt_ok", "Imports.execStmts_ok", "Imports.ensure_ok", "Imports.run_py_ok", "Imports.pyDenotes_j",
-            "Imports.expand_sound", "Imports.resolve_sound_state", "Imports.alias_of_stmt", "Imports.def_registered",
-            "Imports.walk_path"]
+            "Imports.resolve_sound_unbound_counterexample", "Imports.resolve_order_independent", "Imports.wf_run_clean",
+            "Imports.resolve_sound_bases_counterexample",
+            # lemmas of PdProps/C04.lean they rest on (the layers below are PdProps/C04Base.lean and C04Clean.lean)
+            "Imports.alias_of_stmt", "Imports.def_registered", "Imports.walk_path"]
 RULE = ("generated acyclic multi-package projects (globally unique definition names, one binding per name per scope; plain, "
         "aliased, from, relative, star imports, package re-imports, imports in class bodies, nested classes, subclasses). CPython "
         "imports the project in a subprocess and reports, for every name bound in every module and class namespace and its "
@@ -41,10 +38,10 @@ PARTIAL = {"Imports.resolve_sound": "soundness is a theorem (Imports.resolve_sou
                                     "that both sides bind, the same object) under WF = the property's quantifier (acyclic by a "
                                     "topological index, imports inside the project, qualified names unique, each name bound once per "
                                     "scope - a star import counted as binding every public name of its target and its __all__ -, root "
-                                    "module names reserved) PLUS two restrictions: no base classes (inherited attributes: oracle + "
-                                    "C05) and no __all__ re-export moves (oracle + C07), and for runs of the analysis without registry "
-                                    "exception / duplicate definition (`bad = false`; checked on every generated WF project by the "
-                                    "`wf-clean` stream, not yet derived from WF). Outside WF the direct differential oracle decides.",
+                                    "module names reserved, no definition name containing a space) PLUS two restrictions: no base "
+                                    "classes (inherited attributes: oracle + C05) and no __all__ re-export moves (oracle + C07). The "
+                                    "clean-run side condition is discharged (Imports.wf_run_clean). Outside WF the direct differential "
+                                    "oracle decides.",
            "Imports.resolve_sound_unbound": "without 'Python binds the name' the implication is false (star import of a package's "
                                             "not-yet-imported submodule: Imports.resolve_sound_unbound_counterexample) - outside the "
                                             "property's quantifier, an observation"}
@@ -499,6 +496,7 @@ def replay_witnesses(ctx: Ctx) -> None:
     pd = None if r is None else r.fullName()
     py = run_cpython([{"files": files_of(units), "modules": ["top", "pa", "pa.m1"], "sites": True}])[0]
     bound = "m1" in (py.get("sites") or {}).get("top", {})
+    replay_bases_witness(ctx)
     ctx.traces_validated += 1
     if pd == "pa.m1" and not py.get("error") and not bound:
         ctx.count("witness:unbound-star-submodule:confirmed")
@@ -526,3 +524,26 @@ def replay(ctx: Ctx, obj) -> int:
         print(s)
     print("scope:", inp.get("scope"), "name:", inp.get("name"))
     return 0
+
+
+def replay_bases_witness(ctx: Ctx) -> None:
+    """the witness of Imports.resolve_sound_bases_counterexample on the real pydoctor and the real CPython: an attribute
+    that an earlier base class binds by an import in its body (direct oracle: a genuine violation while it lasts)"""
+    units = [Unit("D", False, "class K:\n    '''ID:K'''\n", None),
+             Unit("M", False, "class B:\n    '''ID:B'''\n    from D import K as y\nclass B2:\n    '''ID:B2'''\n"
+                              "    def y(self):\n        '''ID:y'''\nclass C(B, B2):\n    '''ID:C'''\n", None)]
+    system, mods, _ = build_real(units)
+    r = mods[1].resolveName("C.y")
+    pd = None if r is None else r.fullName()
+    py = run_cpython([{"files": files_of(units), "modules": ["D", "M"], "sites": True}])[0]
+    pyv = (py.get("sites") or {}).get("M", {}).get("C.y")
+    ctx.traces_validated += 1
+    ctx.case("witness:bases:C.y", True, {"pydoctor": pd, "python": pyv})
+    if py.get("error") or pyv != "d:D.K":
+        ctx.disagree("witness-bases", {"units": {u.qname: u.source for u in units}}, "Python: C.y is D.K", str(pyv))
+    elif pd is not None and pd != "D.K":
+        ctx.fail("unsound:inherited-attribute:base-import-skipped", {"units": {u.qname: u.source for u in units},
+                                                                      "scope": "M", "name": "C.y"},
+                 f"in M, 'C.y' resolves to {pd} but Python's attribute lookup gives D.K (bound by an import in the first base)")
+    else:
+        ctx.count("witness:bases:sound-now")
